@@ -203,8 +203,8 @@ def run(chk: Check):
     errs = gen_logger.regen()
     for f, e in errs:
         chk.broken_obligation(f"translator failed closed for Gen/{f}", e)
-    if errs:
-        return
+    # a failed translation is a broken obligation, not the end of the run: the theorems are then checked against the last
+    # generated constants and the failing-input search (correspondence + spec oracle on the real code) still runs
     chk.prove(FAM, "Props.C17", THEOREMS, extra_targets=["Props/C17Before.vo"])
     chk.cov["checker_cmd"] = "cd coq/logger && make Props/C17.vo Props/C17Before.vo  (coqc 8.16.1, full .vo)"
     if thorough:
@@ -311,6 +311,8 @@ def run(chk: Check):
         if v:
             nviol += 1
             kinds[v[0]] = kinds.get(v[0], 0) + 1
+            if kinds[v[0]] > 1:
+                continue            # one replay per failing class (the shortest-prefix one comes first); counts in evidence
             chk.spec_failure(key=v[0], desc=v[1],
                              replay=dict(datasets=c["datasets"], prog=c["prog"], sched=r["trace"], stale=r.get("stale"),
                                          observed=impl_flat(c, r)))
